@@ -1178,6 +1178,11 @@ func ExpandRoot(p *core.Prog, r *core.Report) {
 				}
 				r.Unk(rule, key, pos, "the root comes from a call that is not the validator's document accessor")
 			default:
+				if pth, ok := core.StablePath(arg); ok && strings.HasSuffix(pth, ".Root") {
+					// the root a validator was built with (a field fed from the constructor's root parameter)
+					r.OK(rule, key, pos, "resolves against the root the validator was built with ("+pth+")")
+					return
+				}
 				if pth, ok := core.StablePath(arg); ok {
 					r.Unk(rule, key, pos, "the root is "+pth+": not recognised as the validator's document")
 				} else {
